@@ -31,7 +31,7 @@ META = {
                  'C19_or_accepts_refuted', 'C19_loads', 'C19_loads_refuted_F14b', 'C19_loads_refuted_F14d',
                  'C19_loads_refuted_F14e', 'C19_loads_refuted_F14f', 'C19_wellformed', 'C19_names_resolve',
                  'C19_wellformed_refuted_F14c', 'C19_names_refuted_F14g', 'C19_deterministic',
-                 'C19_cli_atomic_refuted', 'C19_cli_atomic_partial', 'C19_cli_valid_writes', 'C19_tables',
+                 'C19_cli_atomic_refuted', 'C19_cli_atomic_partial', 'C19_cli_atomic_lazy', 'C19_cli_valid_writes', 'C19_tables',
                  'C19_bool_values_model'],
     'tables': ['SchemaTables'],
     'level_text': ('Theorems proved in Coq for ALL JSON documents (any depth/width) and both flag settings about an executable model of the '
@@ -436,7 +436,7 @@ Definition run_case (fs : bool) (j : json) : pstr :=
                 b2s (schema_safe snake_f pascal_f sing_f (sbit 0) (sbit 1) (sbit 2) (sbit 3) (sbit 4) bool_vals fs (sbit 5) ident_f reserved_names root_reserved_names j);
                 b2s (struct_safe snake_f pascal_f sing_f (sbit 0) (sbit 1) (sbit 2) (sbit 3) (sbit 4) bool_vals fs (sbit 5) j)].
 Definition show_cli (i : cli_input) (before : option pstr) : pstr :=
-  let st := cli_run i before in
+  let st := cli_run cli_output_opened_at_parse i before in
   (match exit_code st with Some n => hex (dec_of_N n) | None => S "none" end) ++ S "|" ++
   (match out_file st with Some c => S "S" ++ hex c | None => S "N" end).
 ''' % ('; '.join(names), '; '.join(strs), '; '.join(ids), coq_list([coq_str(x) for x in O.bool_values]),
@@ -544,7 +544,7 @@ def run(ctx):
         for fs in (False, True):
             exprs.append('run_case %s %s' % (coq_bool(fs), coq_json(d)))
     try:
-        model = ctx.coq(exprs, ['SchemaGen'], prelude=make_prelude(O))
+        model = ctx.coq(exprs, ['SchemaGen', 'T_SchemaTables'], prelude=make_prelude(O))
     except Exception as e:
         ctx.broken_tie('model evaluation failed: %s' % str(e)[:600])
 
@@ -680,7 +680,7 @@ def run(ctx):
         ctx.known_finding('F14a', still_fails=cli_predicate(w['case'], res) is not None)
     if model is not None:
         try:
-            cm = ctx.coq(cli_exprs, ['SchemaGen'], prelude=make_prelude(O), tag='cli')
+            cm = ctx.coq(cli_exprs, ['SchemaGen', 'T_SchemaTables'], prelude=make_prelude(O), tag='cli')
             for c, res, m in zip(ccases, cres, cm):
                 rc_m, out_m = m.split('|')
                 rc_i = hexs(str(res['rc']))
